@@ -63,6 +63,15 @@ def moveToVertex (st : TState) : Except TypeErr TState :=
 def moveToEdge (st : TState) : Except TypeErr TState :=
   if st.last != .vertex then .error .badLastType else .ok { st with last := .edge }
 
+/-- first aggregation (in list order) that repeats an earlier name or has no type -/
+def aggsBadFrom (seen : List String) : List Agg → Bool
+  | [] => false
+  | a :: rest =>
+    if seen.contains a.name then true
+    else (match a.kind with | .unset => true | _ => false) || aggsBadFrom (a.name :: seen) rest
+
+def aggsBad (aggs : List Agg) : Bool := aggsBadFrom [] aggs
+
 def needElement (st : TState) (k : Except TypeErr TState) : Except TypeErr TState :=
   if st.last != .vertex && st.last != .edge then .error .badLastType else k
 
@@ -106,9 +115,11 @@ def typeStep (st : TState) : Stmt → Except TypeErr TState
   | .path _ => needElement st (.ok { st with last := .path })
   | .unwind _ => .ok st
   | .fields _ => needElement st (.ok st)
-  | .aggregate _ =>
-      -- the duplicate-name loop consults a map that is never filled: it cannot fail (mirrors the code)
-      needElement st (.ok { st with last := .aggregation })
+  | .aggregate aggs =>
+      -- the loop over the aggregations rejects a repeated name (the map of seen names is filled
+      -- since `fix: the duplicate aggregation name check records the names it has seen`) and an
+      -- aggregation without a type (`fix: the compiler rejects an aggregation without a type`)
+      needElement st (if aggsBad aggs then .error .emptyArgs else .ok { st with last := .aggregation })
   | .lookupVertsIndex _ => .ok { st with last := .vertex }
   | .engineCustom _ t => .ok { st with last := t }
   | .unknown => .error .unknownStatement
@@ -150,6 +161,7 @@ inductive ArgCheck where
   | invalidName    -- gripql.ValidateFieldName(stmt.As) != nil
   | reservedName   -- stmt.As == jsonpath.Current
   | deadLoop       -- error return inside a `for … range` over a map that is never filled
+  | aggNames       -- the loop over the aggregations: a repeated name or an aggregation without a type
   | unrecognised   -- a condition the interpreter has no meaning for (breaks the agreement theorem)
   deriving Repr, DecidableEq, Inhabited
 
@@ -195,6 +207,7 @@ def Stmt.checkFails (s : Stmt) : ArgCheck → Bool
   | .invalidName => match s with | .as_ n => !validFieldName n | _ => false
   | .reservedName => match s with | .as_ n => n == currentNamespace | _ => false
   | .deadLoop => false
+  | .aggNames => match s with | .aggregate aggs => aggsBad aggs | _ => false
   | .unrecognised => true
 
 def TypingTable.find (tbl : TypingTable) (k : Kind) (v : Variant) : Option TypingEntry :=
@@ -208,6 +221,7 @@ def errOfKind (last : DataType) : Kind → Variant → TypeErr
 
 def errOfCheck : ArgCheck → TypeErr
   | .emptyList => .emptyArgs
+  | .aggNames => .emptyArgs
   | .emptyName => .badMarkName | .invalidName => .badMarkName | .reservedName => .badMarkName
   | _ => .tableBroken
 
@@ -273,7 +287,7 @@ def handTable : TypingTable :=
     e .path (elemOnly fun _ => .ty .path),
     e .unwind same,
     e .fields (elemOnly .ty),
-    e .aggregate (elemOnly fun _ => .ty .aggregation) [.deadLoop],
+    e .aggregate (elemOnly fun _ => .ty .aggregation) [.aggNames],
     e .lookupVertsIndex (const .vertex),
     e .engineCustom (DataType.all.map fun _ => .custom),
     e .unknown (DataType.all.map fun _ => .err) ]
